@@ -44,6 +44,8 @@ template <typename T> u64 bits(T v) {
   else { static_assert(sizeof(T) == 8); u64 b; std::memcpy(&b, &v, 8); return b; }
 }
 struct In { std::vector<u64> cfg, cells, coord; };
+// a coordinate component that int, unsigned (when >= 0), long and double all represent exactly
+template <typename T> bool small_int(T x) { return x >= static_cast<T>(-30000) * (std::is_signed_v<T> || std::is_floating_point_v<T> ? 1 : 0) && x <= static_cast<T>(30000) && static_cast<T>(static_cast<long>(x)) == x; }
 
 template <typename T, std::size_t M>
 typename backend::array<vector::vector_d<T, M>>::owning_data_t mkArr(const std::vector<u64> & cells) {
